@@ -11,8 +11,8 @@ ASSUMPTIONS = [
 
 def run(ctx):
     quick = ctx["tier"] == "quick"
-    runs = [("seq", 400 if quick else 6000, 40, 0, []),
-            ("seq", 60 if quick else 600, 300, 1, [])]
+    runs = [("seq", 400 if quick else 30000, 40, 0, []),
+            ("seq", 60 if quick else 3000, 300, 1, [])]
     r = codec.run_art("C01", ctx, runs)
     # the 15 codes through dsi-bitstream's dynamic dispatch (table fast paths included):
     # written bits, reported lengths, length function and read-back against the proved codes
